@@ -72,7 +72,7 @@ def gen_case(rng, cid, k=None, entry=None, algo=None):
     for _ in range(n_ops):
         e = entry or rng.choice(ENTRIES)
         a = algo or rng.choice(ALGOS)
-        el = rng.choice(["e8", "e40"])
+        el = rng.choice(["e8", "e40", "e8", "e40", "d8", "d40"])
         ln = rng.choice(lens)
         lines.append(line_for(e, a, el, mode, ln, seqs, rng))
     return lines
@@ -86,7 +86,7 @@ def all_configs_case(rng, cid, k):
     lines = [f"case {cid}"]
     for e in ENTRIES:
         for a in ALGOS:
-            for el in ("e8", "e40"):
+            for el in ("e8", "e40", rng.choice(["d8", "d40"])):
                 lines.append(line_for(e, a, el, mode, rng.randint(0, total), seqs, rng))
     return lines
 
@@ -98,6 +98,30 @@ def all_lengths_case(rng, cid, k, entry, algo, elem):
     lines = [f"case {cid}"]
     for ln in range(total + 1):
         lines.append(line_for(entry, algo, elem, mode, ln, seqs, rng))
+    return lines
+
+
+def huge_case(rng, cid, k, algo, elem, style):
+    """more sequences than a 14-/16-bit index can count (loser tree index types, `Source`)"""
+    mode = rng.choice(["lt", "gt"])
+    lo = 1 if mode == "gt" else 0
+    if style == "ones":            # one-element sequences, a few empty ones
+        seqs = [[lo + rng.randrange(50)] if rng.random() < 0.97 else [] for _ in range(k)]
+    else:                          # empty-heavy: about 40 non-empty sequences anywhere
+        seqs = [[] for _ in range(k)]
+        for _ in range(40):
+            i = rng.randrange(k) if rng.random() < 0.7 else k - 1 - rng.randrange(min(k, 8))
+            seqs[i] = sorted([lo + rng.randrange(6) for _ in range(rng.randint(1, 3))], reverse=(mode == "gt"))
+    # the smallest elements sit in the last sequences: a truncated sequence count is visible at once
+    for i in range(k - 3, k):
+        seqs[i] = [lo + 60] if mode == "gt" else [lo]
+    if mode == "gt":
+        pass
+    total = sum(len(q) for q in seqs)
+    lines = [f"case {cid}"]
+    for entry in (["smm", "mm"] if algo != "lts" else ["smms", "mms"]):
+        ln = rng.choice([7, 20, min(total, 45)])
+        lines.append(line_for(entry, algo, elem, mode, min(ln, total), seqs, rng))
     return lines
 
 
@@ -116,20 +140,58 @@ def gen_all(seed, tier, round_no=0):
     n = 3000 if tier == "quick" else 100000
     for _ in range(n):
         cs.append(gen_case(rng, f"g{cid}")); cid += 1
-    # beyond the stated k range: more players than 9 (several loser tree levels, padding players)
+    # beyond the stated k range: more players than 9 (several loser tree levels, padding players),
+    # and more than 16 sequences with heavy ties (std::sort is a stable insertion sort up to 16)
     for _ in range(60 if tier == "quick" else 4000):
         cs.append(gen_case(rng, f"b{cid}", k=rng.choice([10, 11, 12, 15, 16, 17, 20, 31, 32, 33]))); cid += 1
+    for e in ENTRIES:
+        for a in ALGOS:
+            for _ in range(1 if tier == "quick" else 12):
+                cs.append(ties_case(rng, f"t{cid}", rng.choice([17, 18, 24, 33, 48, 64]), e, a)); cid += 1
+    # index types: k > 2^14 and k > 2^16 sequences
+    if tier == "quick":
+        if round_no == 0:
+            cs.append(huge_case(rng, f"h{cid}", 65541, "lt", "e8", "sparse")); cid += 1
+    else:
+        for k in (16385, 40000, 65541, 70000):
+            for algo, elem, style in (("lt", "e8", "ones"), ("lt", "e40", "sparse"), ("ltc", "e8", "sparse"),
+                                      ("ltc", "e40", "ones"), ("lts", "e8", "sparse"), ("bub", "e8", "sparse")):
+                if round_no == 0 or rng.random() < 0.25:
+                    cs.append(huge_case(rng, f"h{cid}", k, algo, elem, style)); cid += 1
     return cs
+
+
+def ties_case(rng, cid, k, entry, algo):
+    """17..64 non-empty sequences whose heads tie heavily"""
+    mode = rng.choice(["lt", "gt", "q4"])
+    lo = 1 if mode == "gt" else 0
+    seqs = []
+    for i in range(k):
+        n = rng.choice([1, 1, 2, 3])
+        q = [lo + rng.randrange(2) for _ in range(n)]
+        if mode == "q4":
+            q = [x * 4 + rng.randrange(4) for x in q]
+            q.sort(key=lambda x: x >> 2)
+        else:
+            q.sort(reverse=(mode == "gt"))
+        seqs.append(q)
+    total = sum(len(q) for q in seqs)
+    lines = [f"case {cid}"]
+    for ln in sorted(set([total, rng.randint(1, total), k, min(total, k + 3)])):
+        lines.append(line_for(entry, algo, rng.choice(["e8", "e40"]), mode, ln, seqs, rng))
+    return lines
 
 
 class C05(flow.Spec):
     pid = "C05"
     case_timeout = 900
+    source_files = ("tlx/algorithm/multiway_merge.hpp", "tlx/algorithm/merge_advance.hpp",
+                    "tlx/container/loser_tree.hpp")
     harness = dict(name="c05", sources=["c05.cpp"])
     extra_lean_sources = ("TlxVerif/Model/C09LoserTree.lean", "TlxVerif/Model/C05Tables.lean", "TlxVerif/Proofs/C09Path.lean",
                           "TlxVerif/Proofs/C09Tournament.lean", "TlxVerif/Proofs/C09Orders.lean",
                           "TlxVerif/Proofs/C09Inv.lean", "TlxVerif/Proofs/C09Start.lean",
-                          "TlxVerif/Props/C09.lean")
+                          "TlxVerif/Props/C09.lean", "TlxVerif/Gen/C09Types.lean")
     nontrivial_rule = ("a case = one tuple of sorted sequences (k in 0..9, empties anywhere, heavy duplicates, one "
                        "dominant sequence, all-equal) merged by several entry points x algorithms x element sizes x "
                        "lengths; non-trivial when k >= 3, some key occurs in two different sequences and at least one "
@@ -150,11 +212,13 @@ class C05(flow.Spec):
                     "begins (harness/c05.cpp, ASan+UBSan, exactly-sized buffers)"]
 
     def translator(self, ctx):
-        out = os.path.join(core.LEAN, "TlxVerif", "Gen", "C05MergeTables.lean")
-        rc, o, e = core.sh([sys.executable, os.path.join(core.VERIF, "tools", "c05_extract.py"), core.REPO, out])
-        if rc != 0:
-            return ["translator tools/c05_extract.py: " + (e.strip() or o.strip() or f"rc={rc}")]
-        return []
+        probs = []
+        for tool, gen in (("c05_extract.py", "C05MergeTables.lean"), ("c09_types.py", "C09Types.lean")):
+            out = os.path.join(core.LEAN, "TlxVerif", "Gen", gen)
+            rc, o, e = core.sh([sys.executable, os.path.join(core.VERIF, "tools", tool), core.REPO, out])
+            if rc != 0:
+                probs.append(f"translator tools/{tool}: " + (e.strip() or o.strip() or f"rc={rc}"))
+        return probs
 
     def cases(self, ctx, seed, tier, round_no=0):
         return gen_all(seed, tier, round_no)
